@@ -16,6 +16,15 @@ def generate(tier, rng):
             e.variants.append(VSpec(ident='FwdInner', kind='tuple', ftypes=['StaticStr'], tr=True))
             e.extra['shape'] = e.extra.get('shape', '') + ' +transparent'
     from .. import strcorpus
+    from ..spec import ESpec
+    # two variants with ONE canonical name (neighbours and not): every derive still answers per variant, VARIANTS per index
+    for j, (style, pfx) in enumerate([(None, None), ('snake_case', 'p/')]):
+        e = ESpec(id='c03dup%d' % j, name='EnC03dup%d' % j, style=style, prefix=pfx, derives=list(derives), feats=['names', 'vnames'])
+        e.variants = [VSpec(ident='Low'), VSpec(ident='FooBar'), VSpec(ident='Mid', ts='Low' if style is None else 'low'), VSpec(ident='High'),
+                      VSpec(ident='Alias', ser=['FooBar' if style is None else 'foo_bar']), VSpec(ident='Twin', ser=['High' if style is None else 'high'])]
+        e.extra['shape'] = 'duplicate canonical names'
+        e.extra['no_noise'] = True
+        enums.append(e)
     soup = strcorpus.build_soup(rng, tier, 'C03', derives=derives, feats=['names', 'vnames'], n=30 if tier == 'quick' else 300,
                                 prefix_pool=namecorpus.PREFIXES, with_default=False)
     for e in soup:
